@@ -4,6 +4,7 @@ mod c07;
 mod c13;
 mod c15codec;
 mod c15stream;
+mod c16;
 mod c17;
 mod c19;
 mod c20;
@@ -138,6 +139,14 @@ fn main() {
                 c15stream::generate(&mut out, &family, seed, scripts, len);
             } else {
                 c15stream::replay(&mut out, &family, &read_scripts(&replay));
+            }
+        }
+        "c16dec" => {
+            std::panic::set_hook(Box::new(|_| {}));
+            if replay.is_empty() {
+                c16::generate(&mut out, seed, scripts, len);
+            } else {
+                c16::replay(&mut out, &read_scripts(&replay));
             }
         }
         "c17camel" => {
